@@ -201,8 +201,9 @@ def main(argv):
         m = Model()
         m.machines()
         print('model ready', m.timing)
-        m2 = Model(defines=('-DCAT_UNSOLICITED_CMD_BUFFER_SIZE=2',))
-        m2.machine('evt')
-        print('model (queue capacity 2) ready', m2.timing)
+        for cap in (2, 3):
+            m2 = Model(defines=('-DCAT_UNSOLICITED_CMD_BUFFER_SIZE=%d' % cap,))
+            m2.machine('evt')
+            print('model (queue capacity %d) ready' % cap, m2.timing)
         return 0
     return run_property(args[0], tier, seed)
